@@ -240,7 +240,7 @@ Theorem C04_trace_is_run :
         (init_state (tmR nS nA P Rw av ab ini g) (map Q2R h)) (map fst ops) = Some st /\
     stSolved st = solI /\
     (forall s, (s < nS)%nat ->
-      Rabs (sV st s - untab (map Q2R VI) s) <= Q2R tol * (1 + Rabs (untab (map Q2R VI) s))) /\
+      Rabs (sV st s - untab (map Q2R VI) s) <= Q2R tol) /\
     (forall s, (s < nS)%nat -> sSol st s = true -> absflag (tmR nS nA P Rw av ab ini g) s = false ->
       sAct st s = nth s actI 0%nat).
 Proof. exact main_trace. Qed.
